@@ -2,7 +2,11 @@
 
 package models
 
-import "time"
+import (
+	"time"
+
+	"github.com/ThreeDotsLabs/watermill/zzverif/vrt"
+)
 
 // timerChan is an engine intrinsic: a channel holding one value from the start (the timer may fire at
 // any moment); receiving from it advances the symbolic clock to at least now+d.
@@ -13,6 +17,23 @@ func timerChan(d time.Duration) chan time.Time { return nil }
 //
 //verif:model time.After
 func After(d time.Duration) <-chan time.Time { return timerChan(d) }
+
+// sleepNow is an engine intrinsic: the clock moves on by at least d, without a scheduling point.
+func sleepNow(d time.Duration) {}
+
+// Sleep models time.Sleep. Timed runs (gosym --timed) wait for a timer like everybody else, so that timers due
+// earlier fire first; otherwise the clock simply moves on.
+//
+//verif:model time.Sleep
+func Sleep(d time.Duration) {
+	if vrt.Timed() {
+		if d > 0 {
+			<-timerChan(d)
+		}
+		return
+	}
+	sleepNow(d)
+}
 
 //verif:model time.Since
 func Since(t time.Time) time.Duration { return time.Now().Sub(t) }
